@@ -153,10 +153,12 @@ def _extract_prints(out):
     """Values printed with PrintT(<<"@@TAG", ...>>): found by bracket matching (TLC may wrap lines)."""
     vals = []
     i = 0
+    marker = re.compile(r'<<\s*"@@')
     while True:
-        i = out.find('<<"@@', i)
-        if i < 0:
+        mm = marker.search(out, i)
+        if not mm:
             break
+        i = mm.start()
         depth, j, instr = 0, i, False
         while j < len(out):
             c = out[j]
